@@ -35,7 +35,7 @@ def result_bytes(obj):
     if isinstance(obj, MassBins):
         return snap([np.asarray(x) for b in obj.bins for x in b])
     if isinstance(obj, evolve_mf.InitialBHPopulation):
-        return snap([obj.M, obj.N, np.asarray(obj.age), np.asarray(obj.Ns_lost), np.asarray(obj.Ms_lost)])
+        return snap([obj.M, obj.N, repr(obj.age), repr(obj.Ns_lost), repr(obj.Ms_lost), repr(obj.Mtot), repr(obj.Ntot)])
     return snap([obj.Ns, obj.Ms, obj.alpha] + [x for x in obj.Nr] + [x for x in obj.Mr])
 
 
@@ -58,7 +58,8 @@ def gen_history(rng):
     pool_seed = rng.randrange(10 ** 9)
     calls = []
     for _ in range(rng.randint(2, 8)):
-        kind = rng.choice(["IFMR", "IFMR", "MassBins", "EvolvedMF", "EvolvedMF", "EvolvedMFWithBH", "InitialBHPopulation"])
+        kind = rng.choice(["IFMR", "IFMR", "MassBins", "EvolvedMF", "EvolvedMF", "EvolvedMFWithBH", "InitialBHPopulation", "InitialBHPopulation",
+                           "BHMF"])
         feh = rng.choice([-2.0, -1.5, -1.0, -0.5, 0.0, 0.3, round(rng.uniform(-2.5, 0.4), 2)])
         bh = rng.choice(["banerjee20", "banerjee20", "banerjee20-delayed", "cosmic-rapid"])
         calls.append({"kind": kind, "FeH": feh, "BH_method": bh, "N0": rng.choice([1e5, 5e5]), "share_kwargs": rng.random() < 0.8})
@@ -88,6 +89,9 @@ def do_call(c, pool, fresh=False):
         if c["kind"] == "InitialBHPopulation":
             return evolve_mf.InitialBHPopulation.from_IMF(p["imf"], p["nbins"], c["FeH"], N0=c["N0"], natal_kicks=False,
                                                           BH_IFMR_method=c["BH_method"], BH_IFMR_kwargs=bhk, WD_IFMR_kwargs=wdk)
+        if c["kind"] == "BHMF":
+            return evolve_mf.InitialBHPopulation.from_BHMF([5.0, 20.0, 50.0], [-1.0, -2.0], [4, 4], c["FeH"], N0=1000, natal_kicks=False,
+                                                           BH_IFMR_method=c["BH_method"], BH_IFMR_kwargs=bhk, WD_IFMR_kwargs=wdk)
     raise ValueError(c["kind"])
 
 
@@ -96,6 +100,7 @@ def check_history(hist):
     pool = make_pool(random.Random(hist["pool_seed"]))
     original = copy.deepcopy(pool)
     s0 = {k: snap(v) for k, v in pool.items()}
+    built = []
     for i, c in enumerate(hist["calls"]):
         try:
             res = do_call(c, pool)
@@ -110,9 +115,16 @@ def check_history(hist):
             ref = do_call(c, original, fresh=True)
         except Exception as e:
             return {"clause": "fresh construction raised", "call": i, "observed": f"{type(e).__name__}: {e}"[:140]}
-        if result_bytes(res) != result_bytes(ref):
+        rb = result_bytes(res)
+        if rb != result_bytes(ref):
             return {"clause": "the same model built after other constructions that share argument objects is bit-identical to a fresh build",
                     "call": i, "kind": c["kind"], "FeH": c["FeH"]}
+        built.append((i, c, res, rb))
+    # no hidden state: what an earlier construction returned is not altered by later ones
+    for i, c, res, rb in built:
+        if result_bytes(res) != rb:
+            return {"clause": "a result already returned is not changed by later constructions (hidden shared state)", "call": i, "kind": c["kind"],
+                    "FeH": c["FeH"]}
     return None
 
 
